@@ -150,8 +150,8 @@ def World.deliverConn (w : World) (id : Nat) (d : List UInt8) (wrapper : Bool) :
   | none => w
 
 def lsnSame (a b : Listener Float) : Bool :=
-  a.secret0 == b.secret0 && a.secret1 == b.secret1 && a.active == b.active
-  && a.lastSecretUpdate.toBits == b.lastSecretUpdate.toBits && a.addrScratch == b.addrScratch
+  a.st.secret0 == b.st.secret0 && a.st.secret1 == b.st.secret1 && a.st.active == b.st.active
+  && a.st.lastSecretUpdate.toBits == b.st.lastSecretUpdate.toBits && a.st.addrScratch == b.st.addrScratch
 
 def World.deliverLsn (w : World) (lid : Nat) (addr : String) (d : List UInt8) : World :=
   match w.getEp lid with
